@@ -24,6 +24,8 @@ func init() {
 			ruleBlockEnd(c, r, "")
 			ruleReaderFrom(c, r, "")
 			ruleWriterTo(c, r, "")
+			ruleReader2ChunkEOF(c, r, "")
+			ruleBlockSource(c, r, "")
 			ruleRawEOFFlag(c, r, "")
 			ruleLoopAdvanceExact(c, r, "")
 			ruleBlockReadOnlySize(c, r, "")
